@@ -818,4 +818,25 @@ theorem loopH_step (srcs : Nat → Src α) (nsrc : Nat) (b as : List (HC α)) (a
 
 end call
 
+/-! ### vocabulary of the statement still PENDING (nested hubs) -/
+
+/-- the leaf Streams of a polynomial expression, in writing order -/
+def HC.leafs : HC α → List Nat
+  | .c _ => []
+  | .s e => e.srcs
+def PE.leafs : PE α → List Nat
+  | .poly p => p.flatMap fun kv => kv.2.leafs
+  | .mul a b => a.leafs ++ b.leafs
+  | .divs a c => a.leafs ++ c.leafs
+
+/-- every Stream written in the expression is a leaf Stream (a wrapped source) -/
+def HC.Leafy : HC α → Prop
+  | .c _ => True
+  | .s (.src _) => True
+  | .s _ => False
+def PE.Leafy : PE α → Prop
+  | .poly p => ∀ kv ∈ p, kv.2.Leafy
+  | .mul a b => a.Leafy ∧ b.Leafy
+  | .divs a c => a.Leafy ∧ c.Leafy
+
 end ALV.C06.Hub
